@@ -265,7 +265,7 @@ func (x *Exec) applyContract(bc *blockCtx, in ssa.Instruction, f *ssa.Function, 
 	} else {
 		res = x.havocResult(bc, sig, name)
 	}
-	post := &CEnv{x: x, st: bc.st, old: pre, vars: vars, pkg: fnPkg(f), guard: bc.reach, fc: fc, lets: ce.lets}
+	post := &CEnv{x: x, st: bc.st, old: pre, vars: vars, pkg: fnPkg(f), guard: bc.reach, fc: fc, lets: ce.lets, hypo: true}
 	x.bindResults(post, sig, res)
 	for _, e := range fc.Ensures {
 		x.assume(bc.reach, x.evalBool(post, e))
@@ -343,7 +343,7 @@ func (x *Exec) invoke(bc *blockCtx, in ssa.Instruction, recv *Val, m *types.Func
 		for i := 0; i < sig.Params().Len(); i++ {
 			vars[sig.Params().At(i).Name()] = args[i]
 		}
-		ce := &CEnv{x: x, st: bc.st, old: pre, vars: vars, guard: bc.reach, fc: mc, pkg: x.prog.pkgOfFile(mc.File)}
+		ce := &CEnv{x: x, st: bc.st, old: pre, vars: vars, guard: bc.reach, fc: mc, pkg: x.prog.pkgOfFile(mc.File), hypo: true}
 		x.bindResults(ce, sig, res)
 		for _, e := range mc.Ensures {
 			x.assume(bc.reach, x.evalBool(ce, e))
